@@ -12,6 +12,8 @@ import (
 	"fmt"
 	"math"
 	"math/big"
+	"math/rand"
+	"strings"
 	"os"
 	"runtime"
 )
@@ -160,6 +162,60 @@ func Prefer(c bool)   {}
 func MaxLen(n int)    {}
 func Unwind(n int)    {}
 func MapOrderNondet() {}
+
+// RandInts pre-allocates the next k values of the process-global math/rand
+// source. Under the engine they are symbolic (distinct, non-negative). Natively
+// the global source is seeded with the first seed whose first k Int() values
+// are in the same relative order as the model's values: order is all that a
+// priority-ordered structure (treap) can observe.
+func RandInts(k int) {
+	d := next("randints", "randints")
+	var want []uint64
+	for _, p := range strings.Split(d.Val, ",") {
+		v, ok := new(big.Int).SetString(strings.TrimSpace(p), 10)
+		if !ok {
+			v = new(big.Int)
+		}
+		want = append(want, v.Uint64())
+	}
+	for len(want) < k {
+		want = append(want, 0)
+	}
+	want = want[:k]
+	rank := func(xs []uint64) []int {
+		r := make([]int, len(xs))
+		for i := range xs {
+			for j := range xs {
+				if xs[j] < xs[i] {
+					r[i]++
+				}
+			}
+		}
+		return r
+	}
+	wr := rank(want)
+	for seed := int64(1); seed < 5_000_000; seed++ {
+		src := rand.New(rand.NewSource(seed))
+		got := make([]uint64, k)
+		for i := range got {
+			got[i] = uint64(src.Int())
+		}
+		gr := rank(got)
+		same := true
+		for i := range gr {
+			if gr[i] != wr[i] {
+				same = false
+				break
+			}
+		}
+		if same {
+			rand.Seed(seed)
+			return
+		}
+	}
+	diverged = "RandInts: no seed reproduces the priority order"
+	panic(replayDiverged{diverged})
+}
 
 // AbstractArith asks the engine to try an abstraction of multiplications and
 // divisions (uninterpreted functions) before the exact bit-vector query.
